@@ -94,12 +94,16 @@ func H11_Manager() {
 			sizes = append(sizes, L/d) // divisors of the encoded length
 		}
 	}
-	m := sizes[verif.Choose("m", len(sizes))]
+	mi := verif.Choose("m", len(sizes))
+	if shards := verif.Param("shards", 1); shards > 1 {
+		verif.Assume(mi%shards == verif.Param("shard", 0))
+	}
+	m := sizes[mi]
 	nseg := (L + m - 1) / m
 	fault := verif.Choose("fault", 4)
 	k := 0
 	if fault != 0 {
-		k = verif.Size("k", 1, 3)
+		k = verif.Size("k", 1, verif.Param("kmax", 3))
 	}
 	bidir := fault == 0 && verif.Param("bidir", 0) == 1 && verif.Bool("bidir")
 	// a second bundle sent on the same session in the same direction at the same time: the segments of the two
